@@ -62,6 +62,19 @@ def gen_cases(tier, seed):
             dist["words"][w[:20]] = dist["words"].get(w[:20], 0) + 1
         cases.append(("f%d" % cid, ["P"], ops))
         cid += 1
+    # long commands with multi-byte characters at every alignment around the buffer / log-line sizes a handler might cut at
+    dist["long_utf8"] = 0
+    sizes = [249, 250, 251, 255, 256, 257, 511, 512, 513, 1023, 1024, 1025, 2047, 2048, 4095, 4096, 8192] if tier != "quick" else [250, 256, 512, 1024, 4096]
+    for size in sizes:
+        for ch in ("\u00e9", "\u20ac", "\U0001d11e"):
+            for pad in range(len(ch.encode("utf-8")) + 1):
+                for head in ("set doc ", "get ", "watch ", "nonsense ", "set-safe doc 0 ", "replicate d1 doc -1 ", ""):
+                    body = head + "a" * pad
+                    while len(body.encode("utf-8")) < size + 8:
+                        body += ch
+                    ops = list(setup) + [C(2, body), C(3, "set p0 v0"), C(3, "get p0"), C(2, "get k")]
+                    cases.append(("u%d" % cid, ["P"], ops)); cid += 1
+                    dist["long_utf8"] += 1
     # histories: several sessions building watcher / selection state (watch, switch database, disconnect, reconnect)
     # before data commands, each followed by the probe
     nh = {"quick": 1500, "thorough": 30000, "search": 1500}[tier]
